@@ -5,7 +5,7 @@ use anyhow::{anyhow, bail, Context, Result};
 use futures::{future::join_all, stream::FuturesUnordered, SinkExt, StreamExt};
 use log::{error, info};
 use quinn::{Connecting, Connection, Endpoint, IdleTimeout, VarInt};
-use selium_protocol::error_codes::INVALID_TOPIC_NAME;
+use selium_protocol::error_codes::{INVALID_TOPIC_NAME, TOPIC_KIND_MISMATCH};
 use selium_protocol::{error_codes, BiStream, ErrorPayload, Frame, TopicName};
 use selium_std::errors::SeliumError;
 use std::net::SocketAddr;
@@ -189,7 +189,7 @@ async fn handle_stream(
             use selium_protocol::error_codes::CLOUD_AUTH_FAILED;
 
             match do_cloud_auth(&_connection, topic, &topics).await {
-                Ok(_) => stream.send(Frame::Ok).await?,
+                Ok(_) => (),
                 Err(e) => {
                     debug!("Cloud authentication error: {e:?}");
 
@@ -215,7 +215,6 @@ async fn handle_stream(
                 stream.send(Frame::Error(payload)).await?;
                 return Ok(());
             }
-            stream.send(Frame::Ok).await?;
         }
 
         let mut ts = topics.lock().await;
@@ -245,6 +244,23 @@ async fn handle_stream(
         // is stalled (and whose registration queue is full) must not block every other topic.
         let mut tx = ts.get(topic).unwrap().clone();
         drop(ts);
+
+        // A topic serves one messaging pattern, fixed by its first registration. Refuse a stream
+        // of the other pattern explicitly instead of accepting it and failing the hand-over.
+        let wants_pubsub = matches!(
+            frame,
+            Frame::RegisterPublisher(_) | Frame::RegisterSubscriber(_)
+        );
+        if wants_pubsub != matches!(tx, Sender::Pubsub(_)) {
+            let payload = ErrorPayload {
+                code: TOPIC_KIND_MISMATCH,
+                message: "Topic is already in use with the other messaging pattern".into(),
+            };
+            stream.send(Frame::Error(payload)).await?;
+            return Ok(());
+        }
+
+        stream.send(Frame::Ok).await?;
 
         match frame {
             Frame::RegisterPublisher(_) => {
